@@ -9,4 +9,5 @@ pub mod fault;
 pub mod journal;
 pub mod limit;
 pub mod look;
+pub mod pop;
 pub mod probe;
